@@ -78,7 +78,12 @@ def check_exit(eng: Engine, contract: Contract, kind, st: State, val, self_ref, 
         result = GenVal(contract.generator, st.ghost["$out_set"].term, st.ghost["$out_count"].term)
     elif kind != RAISE and contract.result is not None and not isinstance(contract.result, (ObjT, list)) and result is not None:
         result = coerce(result, contract.result)
-    ctx = Ctx(eng, st, self_ref, args, result=result, exc=exc)
+    post_extra = {}
+    for pn in getattr(contract, "mutable_params", ()):
+        cur = st.env.get(pn)
+        if isinstance(cur, Val):
+            post_extra[f"post:{pn}"] = cur.term
+    ctx = Ctx(eng, st, self_ref, args, result=result, exc=exc, extra=post_extra)
     path = "exit"
     if kind == RAISE:
         cases = [c for c in contract.raising_cases() if eng.exc_is_subclass(exc.cls, c.raises)
@@ -119,7 +124,7 @@ def check_exit(eng: Engine, contract: Contract, kind, st: State, val, self_ref, 
         for name, f in c.ensures:
             s2 = st.fork()
             s2.assume(w)
-            eng.oblige(s2, f(Ctx(eng, s2, self_ref, args, result=result, exc=exc)), f"{label}:{c.name}:{name}",
+            eng.oblige(s2, f(Ctx(eng, s2, self_ref, args, result=result, exc=exc, extra=post_extra)), f"{label}:{c.name}:{name}",
                        "ensures" if kind != RAISE else "raises")
     # frame: heap cells outside the declared frame are unchanged
     for (oid, fld), cur in st.heap.items():
